@@ -423,3 +423,222 @@ Proof.
     + unfold nt_full. rewrite !next_token_of_oob by exact Hge. split; [reflexivity|discriminate].
   - exact Hpos.
 Qed.
+
+(* ---- the scanner looks at the input only through [rx] at the current position ------------- *)
+Lemma recognize_ext terms rx1 rx2 q q' (H : forall t, rx1 t q = rx2 t q') acts :
+  forall flags last acc,
+    recognize terms rx1 acts flags q last acc = recognize terms rx2 acts flags q' last acc.
+Proof.
+  induction acts as [|[t al] r IH]; intros flags last acc; cbn [recognize]; [reflexivity|].
+  rewrite (H t).
+  destruct (_ && _); [reflexivity|].
+  destruct (rx2 t q') as [len|].
+  - destruct (match flags with f :: _ => f | [] => false end); [reflexivity|apply IH].
+  - apply IH.
+Qed.
+
+Lemma recognize_in terms rx acts : forall flags pos last acc y len,
+  In (y, len) (recognize terms rx acts flags pos last acc) ->
+  In (y, len) acc \/ rx y pos = Some len.
+Proof.
+  induction acts as [|[t al] r IH]; intros flags pos last acc y len; cbn [recognize]; [auto|].
+  destruct (_ && _); [auto|].
+  destruct (rx t pos) as [l|] eqn:E.
+  - destruct (match flags with f :: _ => f | [] => false end).
+    + intros Hin. apply in_app_or in Hin. destruct Hin as [Hin|[Hin|[]]]; [auto|].
+      inversion Hin; subst. right. exact E.
+    + intros Hin. apply IH in Hin. destruct Hin as [Hin|Hin]; [|auto].
+      apply in_app_or in Hin. destruct Hin as [Hin|[Hin|[]]]; [auto|].
+      inversion Hin; subst. right. exact E.
+  - intros Hin. apply IH in Hin. exact Hin.
+Qed.
+
+Lemma lexdis_subset terms toks x : In x (lexical_disambiguation terms toks) -> In x toks.
+Proof.
+  unfold lexical_disambiguation.
+  destruct toks as [|a [|b r]]; [auto|auto|].
+  set (toks := a :: b :: r).
+  set (longest := filter _ toks).
+  set (pref := filter _ longest).
+  assert (Hl : In x longest -> In x toks) by (intros H; apply filter_In in H; apply H).
+  assert (Hp : In x pref -> In x toks) by (intros H; apply filter_In in H; apply Hl; apply H).
+  destruct longest as [|l1 [|l2 lr]]; destruct pref; auto.
+Qed.
+
+Lemma next_tokens_ext terms rx1 rx2 n1 n2 stop ci ld st q q' :
+  (forall t, rx1 t q = rx2 t q') -> (q =? n1) = (q' =? n2) -> (q <? n1) = (q' <? n2) ->
+  next_tokens terms rx1 n1 stop ci ld st q = next_tokens terms rx2 n2 stop ci ld st q'.
+Proof.
+  intros Hrx He Hl. unfold next_tokens. rewrite He, Hl.
+  rewrite (recognize_ext terms rx1 rx2 q q' Hrx). reflexivity.
+Qed.
+
+Lemma next_tokens_in terms rx n stop ci ld st q y len :
+  In (y, len) (next_tokens terms rx n stop ci ld st q) -> len = 0 \/ rx y q = Some len.
+Proof.
+  unfold next_tokens. intros Hin.
+  assert (Hin' : In (y, len)
+            ((if has_key stop (st_actions st) && (negb ci || (q =? n)) then [(stop, 0)] else []) ++
+             (if q <? n then recognize terms rx (st_actions st) (st_finish st) q None [] else []))).
+  { destruct ld; [apply lexdis_subset in Hin|]; exact Hin. }
+  apply in_app_or in Hin'. destruct Hin' as [H|H].
+  - destruct (_ && _); [|destruct H]. destruct H as [H|[]]. inversion H. left. reflexivity.
+  - destruct (q <? n); [|destruct H]. apply recognize_in in H. destruct H as [[]|H]. right. exact H.
+Qed.
+
+Lemma next_token_of_ext terms rx1 rx2 n1 n2 stop ci ld tb st q q' :
+  (forall t, rx1 t q = rx2 t q') -> (q =? n1) = (q' =? n2) -> (q <? n1) = (q' <? n2) ->
+  next_token_of terms rx1 n1 stop ci ld tb st q = next_token_of terms rx2 n2 stop ci ld tb st q'.
+Proof.
+  intros Hrx He Hl. unfold next_token_of. destruct (get_state tb st) as [s|]; [|reflexivity].
+  rewrite (next_tokens_ext terms rx1 rx2 n1 n2 stop ci ld s q q' Hrx He Hl). reflexivity.
+Qed.
+
+Lemma next_token_of_tok terms rx n stop ci ld tb st q y len :
+  next_token_of terms rx n stop ci ld tb st q = TTok y len -> len = 0 \/ rx y q = Some len.
+Proof.
+  unfold next_token_of. destruct (get_state tb st) as [s|]; [|discriminate].
+  destruct (next_tokens terms rx n stop ci ld s q) as [|[y0 l0] [|b r]] eqn:E; try discriminate.
+  intros H. inversion H; subst. apply (next_tokens_in terms rx n stop ci ld s q).
+  rewrite E. left. reflexivity.
+Qed.
+
+(* ---- ws skipping and the insertion of one ws character --------------------------------- *)
+Lemma skip_chars_shift ws l : forall p d, skip_chars ws l (p + d) = skip_chars ws l p + d.
+Proof.
+  induction l as [|c r IH]; intros p d; cbn; [reflexivity|].
+  destruct (existsb (N.eqb c) ws); [|reflexivity].
+  replace (p + d + 1) with (p + 1 + d) by lia. apply IH.
+Qed.
+
+Lemma skip_chars_ge ws l : forall p, p <= skip_chars ws l p.
+Proof.
+  induction l as [|c r IH]; intros p; cbn; [lia|].
+  destruct (existsb (N.eqb c) ws); [|lia]. specialize (IH (p + 1)). lia.
+Qed.
+
+Lemma skip_chars_ins ws ch (Hch : existsb (N.eqb ch) ws = true) a : forall b p,
+  (skip_chars ws (a ++ b) p < p + N.of_nat (length a) /\
+   skip_chars ws (a ++ ch :: b) p = skip_chars ws (a ++ b) p) \/
+  (p + N.of_nat (length a) <= skip_chars ws (a ++ b) p /\
+   skip_chars ws (a ++ ch :: b) p = skip_chars ws (a ++ b) p + 1).
+Proof.
+  induction a as [|x a IH]; intros b p.
+  - right. cbn [app length skip_chars]. rewrite Hch. split.
+    + pose proof (skip_chars_ge ws b p). lia.
+    + apply skip_chars_shift.
+  - cbn [app length skip_chars]. destruct (existsb (N.eqb x) ws).
+    + specialize (IH b (p + 1)).
+      replace (p + N.of_nat (S (length a))) with (p + 1 + N.of_nat (length a)) by lia. exact IH.
+    + left. split; [lia|reflexivity].
+Qed.
+
+Lemma ins_at_length {X} k (x : X) l : (k <= length l)%nat -> length (ins_at k x l) = S (length l).
+Proof.
+  intros H. unfold ins_at. rewrite app_length. cbn. rewrite firstn_length_le by exact H.
+  rewrite skipn_length. lia.
+Qed.
+
+Lemma skipn_ins_before {X} k (x : X) l n : (n <= k)%nat -> (k <= length l)%nat ->
+  skipn n (ins_at k x l) = skipn n (firstn k l) ++ x :: skipn k l /\
+  skipn n l = skipn n (firstn k l) ++ skipn k l /\
+  length (skipn n (firstn k l)) = (k - n)%nat.
+Proof.
+  intros Hn Hk. unfold ins_at.
+  assert (Hlen : length (firstn k l) = k) by (apply firstn_length_le; exact Hk).
+  split; [|split].
+  - rewrite skipn_app. rewrite Hlen. replace (n - k)%nat with O by lia. reflexivity.
+  - rewrite <- (firstn_skipn k l) at 1. rewrite skipn_app. rewrite Hlen.
+    replace (n - k)%nat with O by lia. reflexivity.
+  - rewrite skipn_length. lia.
+Qed.
+
+Lemma skipn_skipn' {X} a : forall b (l : list X), skipn a (skipn b l) = skipn (b + a) l.
+Proof.
+  induction b as [|b IH]; intros l; [reflexivity|].
+  destruct l as [|x l]; cbn; [destruct a; reflexivity|apply IH].
+Qed.
+
+Lemma skipn_ins_after {X} k (x : X) l n : (k <= n)%nat -> (k <= length l)%nat ->
+  skipn (S n) (ins_at k x l) = skipn n l.
+Proof.
+  intros Hn Hk. unfold ins_at.
+  assert (Hlen : length (firstn k l) = k) by (apply firstn_length_le; exact Hk).
+  rewrite skipn_app. rewrite Hlen. rewrite (skipn_all2 (firstn k l)) by lia.
+  replace (S n - k)%nat with (S (n - k)) by lia. cbn [app skipn].
+  rewrite skipn_skipn'. f_equal. lia.
+Qed.
+
+Definition ins_S (k : N) (q q' : N) : Prop := (q < k /\ q' = q) \/ (k <= q /\ q' = q + 1).
+
+Lemma skip_ws_ins ws ch k chars rx rx' p p' :
+  existsb (N.eqb ch) ws = true -> (k <= length chars)%nat ->
+  ins_R (N.of_nat k) p p' ->
+  ins_S (N.of_nat k) (skip_ws ws (mkPInput chars rx) p)
+                     (skip_ws ws (mkPInput (ins_at k ch chars) rx') p').
+Proof.
+  intros Hch Hk [[Hp ->]|[Hp ->]]; unfold skip_ws; cbn [pi_chars].
+  - destruct (skipn_ins_before k ch chars (N.to_nat p) ltac:(lia) Hk) as (E1 & E2 & E3).
+    rewrite E1, E2.
+    pose proof (skip_chars_ins ws ch Hch (skipn (N.to_nat p) (firstn k chars)) (skipn k chars) p) as H.
+    rewrite E3 in H. replace (p + N.of_nat (k - N.to_nat p)) with (N.of_nat k) in H by lia.
+    exact H.
+  - replace (N.to_nat (p + 1)) with (S (N.to_nat p)) by lia.
+    rewrite (skipn_ins_after k ch chars (N.to_nat p)) by (lia || exact Hk).
+    rewrite skip_chars_shift. right. split; [|reflexivity].
+    pose proof (skip_chars_ge ws (skipn (N.to_nat p) chars) p). lia.
+Qed.
+
+(* Inserting one ws character at index k of the input, where no token crosses k and the
+   recognizers do not see the inserted character: the parse is the same, positions up to k
+   unchanged, positions from k on moved by one. *)
+Theorem insert_ws_char c inp rx' k ch fuel pos pos' :
+  pc_layout c = None ->
+  In ch (pc_ws c) ->
+  (k <= length (pi_chars inp))%nat ->
+  let inp' := mkPInput (ins_at k ch (pi_chars inp)) rx' in
+  let K := N.of_nat k in
+  (forall t q, q < K -> rx_of inp' t q = rx_of inp t q) ->
+  (forall t q len, q < K -> rx_of inp t q = Some len -> q + len <= K) ->
+  (forall t q, K <= q -> rx_of inp' t (q + 1) = rx_of inp t q) ->
+  ins_R K pos pos' ->
+  res_rel (ins_R K) (parse_full c inp fuel pos) (parse_full c inp' fuel pos').
+Proof.
+  intros Hnl Hch Hk inp' K Hbefore Hcross Hafter Hpos.
+  assert (Hch' : existsb (N.eqb ch) (pc_ws c) = true).
+  { apply existsb_exists. exists ch. split; [exact Hch|apply N.eqb_refl]. }
+  assert (Hlen : in_len inp' = in_len inp + 1).
+  { unfold in_len, inp'. cbn [pi_chars]. rewrite ins_at_length by exact Hk. lia. }
+  assert (HK : K <= in_len inp) by (unfold in_len, K; lia).
+  unfold parse_full.
+  apply (lr_relayout (pc_g c) (pc_tb c) (pc_stop c) (pc_consume c)
+           (skipws_full c inp fuel) (skipws_full c inp' fuel) (nt_full c inp) (nt_full c inp')
+           (ins_R K) (ins_S K)).
+  - intros q q' [[H ->]|[H ->]]; [left|right]; split; (lia || reflexivity).
+  - intros p p' Hp. unfold skipws_full. rewrite Hnl.
+    destruct inp as [chars rx]. apply skip_ws_ins; assumption.
+  - intros q q' Hq st. unfold nt_full.
+    assert (Hext : forall t, rx_of inp t q = rx_of inp' t q').
+    { intros t. destruct Hq as [[H ->]|[H ->]]; [symmetry; apply Hbefore; exact H|].
+      symmetry; apply Hafter; exact H. }
+    assert (He : (q =? in_len inp) = (q' =? in_len inp')).
+    { rewrite Hlen. destruct Hq as [[H ->]|[H ->]].
+      - rewrite (proj2 (N.eqb_neq q (in_len inp))) by lia.
+        rewrite (proj2 (N.eqb_neq q (in_len inp + 1))) by lia. reflexivity.
+      - destruct (N.eqb_spec q (in_len inp)) as [->|Hne]; [rewrite N.eqb_refl; reflexivity|].
+        rewrite (proj2 (N.eqb_neq (q + 1) (in_len inp + 1))) by lia. reflexivity. }
+    assert (Hl : (q <? in_len inp) = (q' <? in_len inp')).
+    { rewrite Hlen. destruct Hq as [[H ->]|[H ->]].
+      - rewrite (proj2 (N.ltb_lt q (in_len inp))) by lia.
+        rewrite (proj2 (N.ltb_lt q (in_len inp + 1))) by lia. reflexivity.
+      - destruct (N.ltb_spec q (in_len inp)) as [H1|H1].
+        + rewrite (proj2 (N.ltb_lt (q + 1) (in_len inp + 1))) by lia. reflexivity.
+        + rewrite (proj2 (N.ltb_ge (q + 1) (in_len inp + 1))) by lia. reflexivity. }
+    split; [apply next_token_of_ext; assumption|].
+    intros y len Hy. apply next_token_of_tok in Hy.
+    destruct Hq as [[H ->]|[H ->]].
+    + left. destruct Hy as [->|Hy]; [split; [lia|reflexivity]|].
+      split; [eapply Hcross; eassumption|reflexivity].
+    + right. split; lia.
+  - exact Hpos.
+Qed.
